@@ -206,3 +206,49 @@ func HarnessC22Reexport() {
 		vAssert(vSameLines(render(m, got[i]), render(fresh, want[i])), "C22.second-export-carries-current-values")
 	}
 }
+
+// c22Rec records every write made on a push connection.
+type c22Rec struct{ writes []string }
+
+func (r *c22Rec) Write(p []byte) (int, error) {
+	r.writes = append(r.writes, string(p))
+	return len(p), nil
+}
+
+func (r *c22Rec) WriteString(s string) (int, error) {
+	r.writes = append(r.writes, s)
+	// (the callers only log the count; the length of a string holding a
+	// formatted symbolic number is not something the engine knows)
+	return 1, nil
+}
+
+// HarnessC22Push: the push path (writeSocketMetrics) puts exactly one record
+// per label set on the connection, each in a write of its own (a statsd or
+// collectd datagram holds one record), and each record is the formatter's
+// record for that label set.
+func HarnessC22Push() {
+	which := nondetRange("kind", 0, 2)
+	kind := []metrics.Kind{metrics.Counter, metrics.Gauge, metrics.Timer}[which]
+	typ := []metrics.Type{metrics.Int, metrics.Float, metrics.Int}[which]
+	v1, v2 := c22Sym("v1"), c22Sym("v2")
+	m := c22Metric(kind, typ, []string{"a", "b"}, []c22Val{v1, v2})
+	s := metrics.NewStore()
+	if s.Add(m) != nil {
+		vAssert(false, "C22.setup")
+		return
+	}
+	fi := nondetRange("format", 0, 2)
+	f := []formatter{metricToGraphite, metricToStatsd, metricToCollectd}[fi]
+	e := &Exporter{store: s, hostname: "host", pushInterval: 60 * time.Second}
+	w := &c22Rec{}
+	err := e.writeSocketMetrics(w, f, graphiteExportTotal, graphiteExportSuccess)
+	vAssert(err == nil, "C22.push-succeeds")
+	ls := c22Emit(m)
+	vAssert(len(w.writes) == len(ls), "C22.push-one-record-per-label-set")
+	if len(w.writes) != len(ls) {
+		return
+	}
+	for i, l := range ls {
+		vAssert(vStrEq(w.writes[i], f("host", m, l, 60*time.Second)), "C22.push-record-is-the-label-sets-record")
+	}
+}
